@@ -1,5 +1,5 @@
 //! Driving the real beff-wasm session layer natively: builds, fresh simulated processes.
-use crate::host::{seed_this_thread_hash_keys, Fs, HostState, Shared, SimHost};
+use crate::host::{seed_this_thread_hash_keys, Fs, Shared, SimHost};
 use crate::model::{Settings, Triple, Variant};
 use beff_wasm::verif_host as api;
 use std::cell::RefCell;
@@ -186,7 +186,7 @@ pub fn fresh_process(fs: &Fs, entry: &str, settings: &Settings, v: &Variant) -> 
         .stack_size(STACK_BYTES)
         .spawn(move || {
             seed_this_thread_hash_keys(v.hash_seed);
-            let shared: Shared = Rc::new(RefCell::new(HostState { fs, ..Default::default() }));
+            let shared: Shared = Rc::new(RefCell::new(crate::host::new_host_state(fs)));
             install_host(&shared);
             let mut update_panic = None;
             if !v.earlier.is_empty() {
